@@ -2,6 +2,7 @@ package props
 
 import (
 	"fmt"
+	"go/token"
 	"strings"
 
 	"golang.org/x/tools/go/ssa"
@@ -265,6 +266,69 @@ func c34wait(c *core.Ctx) {
 			}
 			c.Result(loops && retest, "C34.c", "DOM", core.FuncName(fn)+":wait-in-loop", c.P.Pos(w.Pos()),
 				"cond.Wait sits in a loop that re-tests the admission predicate", "cond.Wait is not inside a loop re-testing the predicate: a spurious or stale wake-up would admit the caller while the resource is held", nil)
+			// Wait releases the mutex: every admission fact that gates a state change from the
+			// function's entry must be re-established on every path from the Wait to that change
+			ownerEmpty, readersZero := map[an.Edge]bool{}, map[an.Edge]bool{}
+			for _, b := range fn.Blocks {
+				if len(b.Instrs) == 0 {
+					continue
+				}
+				ifi, isIf := b.Instrs[len(b.Instrs)-1].(*ssa.If)
+				if !isIf {
+					continue
+				}
+				bo, isB := ifi.Cond.(*ssa.BinOp)
+				if !isB {
+					continue
+				}
+				t, f := an.Edge{From: b, To: b.Succs[0]}, an.Edge{From: b, To: b.Succs[1]}
+				if an.LoadedField(bo.X, "MultiRSW", "owner") {
+					if s, isS := an.ConstString(bo.Y); isS && s == "" {
+						switch bo.Op {
+						case token.EQL:
+							ownerEmpty[t] = true
+						case token.NEQ:
+							ownerEmpty[f] = true
+						}
+					}
+				}
+				if an.LoadedField(bo.X, "MultiRSW", "numReaders") {
+					if k, isK := an.ConstInt(bo.Y); isK && k == 0 {
+						switch bo.Op {
+						case token.EQL, token.LEQ:
+							readersZero[t] = true
+						case token.NEQ, token.GTR:
+							readersZero[f] = true
+						}
+					}
+				}
+			}
+			okRe := true
+			nState := 0
+			an.Instrs(fn, func(in ssa.Instruction) {
+				st, isSt := in.(*ssa.Store)
+				if !isSt {
+					return
+				}
+				tt, ff, _, isF := an.FieldOf(st.Addr)
+				if !isF || tt != "MultiRSW" || (ff != "owner" && ff != "numReaders") {
+					return
+				}
+				nState++
+				sink := func(x ssa.Instruction) bool { return x == in }
+				for _, g := range []map[an.Edge]bool{ownerEmpty, readersZero} {
+					if len(g) == 0 {
+						continue
+					}
+					if len(an.Ungated(an.CutSpec{Fn: fn, GateEdge: g, Sink: sink})) == 0 &&
+						len(an.Ungated(an.CutSpec{Fn: fn, Start: wi, GateEdge: g, Sink: sink})) > 0 {
+						okRe = false
+					}
+				}
+			})
+			c.Result(okRe && nState > 0, "C34.c", "DOM", core.FuncName(fn)+":predicate-re-established-after-wait", c.P.Pos(w.Pos()),
+				"every admission test that guards the state change from entry also lies on every path from the Wait to the change",
+				core.FuncName(fn)+" changes the lock state after a cond.Wait without re-testing everything it tested before waiting: Wait releases the mutex, so another caller may have taken the lock in between — two writers (or a writer and readers) are admitted together", nil)
 		}
 	}
 	c.Count("cond.Wait sites", waits)
